@@ -212,6 +212,7 @@ func (w *world) judgeReserve(p *peerSt, cs *connSt, fault string, out hopOutcome
 		// a refused refresh: the old reservation stays (possibly) live
 		w.label("refresh-refused")
 		p.rs.desynced = true
+		w.probeCaps = 2
 	}
 	if sequential && local && w.mustGrantCaps(p, cs, at) {
 		w.failf("RESERVE by %s refused (%s) although not relayed, allowed by the ACL and within every cap", cs.name, out.status)
